@@ -35,6 +35,13 @@ def gen_cases(tier, seed):
         # very regular lattices: on some of them the LU factor of the (singular) Neumann Laplacian is EXACTLY singular and the
         # container refuses; whatever it does, the operators it holds are the operators of the mesh
         cases.append({"mesh": {"kind": "lattice", "nx": nx_, "ny": ny_, "hy": hy_}, "seed": int(rng.integers(1 << 30)), "cost": 1})
+    for j in range(3 if tier == "quick" else 8):
+        # meshes at a tiny ABSOLUTE scale (coordinates ~1e-8: a length is a length, whatever its numerical size)
+        cases.append({"mesh": {"kind": ["hex", "delaunay", "hex"][j % 3], "nx": 7, "ny": 6, "n": 64, "jitter": 0.1, "scale": float([1.2e-7, 3e-9, 5e-8][j % 3]), "seed": int(rng.integers(1 << 30))},
+                      "seed": int(rng.integers(1 << 30)), "cost": 1})
+    for j in range(2 if tier == "quick" else 6):
+        # the operators a TDGLSolver actually holds (device with terminals, default and non-default terminal_psi)
+        cases.append({"kind": "solver_operators", "nt": [2, 3][j % 2], "terminal_psi": [0.0, "none", 0.5][j % 3], "seed": int(rng.integers(1 << 30)), "cost": 3, "mesh": {"kind": "solver_device"}})
     for j in range(1 if tier == "quick" else 3):
         # more than 2^15 edges (~11-20 thousand sites): sparse-only identities after in-place refreshes
         cases.append({"kind": "large", "nx": int([112, 130, 150][j]), "ny": int([110, 125, 140][j]), "seed": int(rng.integers(1 << 30)), "cost": 30, "mesh": {"kind": "large_hex"}})
@@ -92,9 +99,54 @@ def _large_case(spec):
             "sample": {"sites": n, "edges": m}}
 
 
+def _solver_operator_case(spec):
+    """The scalar operators inside a constructed TDGLSolver are the operators of its mesh."""
+    import tdgl
+
+    from .. import sim, zoo
+
+    rng = np.random.default_rng(spec["seed"])
+    dspec = zoo.gen_device(rng, n_terminals=spec["nt"], n_holes=0, probes=0, size="small", smooth=0)
+    dev, why = zoo.try_build_device(dspec)
+    if dev is None:
+        return {"violations": [], "counters": {"refused_mesh": 1}, "classes": ["refused"], "nontrivial": False}
+    o = sim.build_options(dict(solve_time=0.1, dt_init=1e-3, dt_max=0.01, adaptive=True, save_every=10, field_units="mT", current_units="uA", terminal_psi=spec["terminal_psi"]), output_file=None)
+    try:
+        solver = tdgl.TDGLSolver(dev, o, applied_vector_potential=0.1, terminal_currents={t.name: 0.0 for t in dev.terminals})
+    except RuntimeError as exc:
+        if "exactly singular" in str(exc):
+            return {"violations": [], "counters": {"refused_mesh": 1}, "classes": ["refused"], "nontrivial": False}
+        raise
+    mesh = dev.mesh
+    em = mesh.edge_mesh
+    n, m = len(mesh.sites), len(em.edges)
+    a = np.asarray(mesh.areas)
+    mo = solver.operators
+    V, C = [], {"solver_operator_checks": 1}
+    Dref = fv.divergence(n, em.edges, em.dual_edge_lengths, a)
+    Gref = fv.gradient(n, em.edges, em.edge_lengths, em.directions, None)
+    Lref = fv.laplacian_fast(n, em.edges, em.edge_lengths, em.dual_edge_lengths, a, em.directions, None, None)
+    Bref = fv.boundary_flux(n, em.edges, em.edge_lengths, a, em.boundary_edge_indices)
+    for name, got, want in (("divergence", mo.divergence, Dref), ("mu_gradient", mo.mu_gradient, Gref), ("mu_laplacian", mo.mu_laplacian, Lref), ("mu_boundary_laplacian", mo.mu_boundary_laplacian, Bref)):
+        dd = fv.max_abs_diff(sp.csr_matrix(got), want)
+        if dd > 1e-12 * abs(want).max():
+            V.append({"kind": "solver_operator_ne_reference", "mechanism": "container_operator_ne_reference", "detail": {"operator": name, "max_abs_diff": float(dd), "terminal_psi": spec["terminal_psi"]}})
+    F = rng.normal(size=m)
+    tot, mag = float(a @ (sp.csr_matrix(mo.divergence) @ F)), float(a @ (abs(sp.csr_matrix(mo.divergence)) @ np.abs(F)))
+    if abs(tot) > 1e-11 * mag:
+        V.append({"kind": "div_sum_nonzero", "mechanism": "div_sum_nonzero", "detail": {"where": "TDGLSolver.operators", "sum": tot, "magnitude": mag}})
+    q = rng.normal(size=len(em.boundary_edge_indices))
+    lhs, rhs = float(a @ (sp.csr_matrix(mo.mu_boundary_laplacian) @ q)), float(em.edge_lengths[em.boundary_edge_indices] @ q)
+    if abs(lhs - rhs) > 1e-11 * float(em.edge_lengths[em.boundary_edge_indices] @ np.abs(q)):
+        V.append({"kind": "boundary_flux_integral_wrong", "mechanism": "boundary_flux_integral_wrong", "detail": {"where": "TDGLSolver.operators", "lhs": lhs, "rhs": rhs}})
+    return {"violations": V, "counters": C, "classes": ["solver_operators", f"terminal_psi={spec['terminal_psi']}"], "nontrivial": True, "sample": {"sites": n, "edges": m}}
+
+
 def run_case(spec):
     if spec.get("kind") == "large":
         return _large_case(spec)
+    if spec.get("kind") == "solver_operators":
+        return _solver_operator_case(spec)
     from tdgl.finite_volume import operators as ops
 
     rng = np.random.default_rng(spec["seed"])
@@ -338,7 +390,7 @@ def run_case(spec):
                 got = Gm @ (st @ gvec + 0.3)
                 want = (rij_ @ gvec) / lij_
                 err = float(np.abs(got - want).max())
-                mag = float(np.abs(st @ gvec).max() / lij_.min() + np.abs(want).max())
+                mag = float(np.abs(st @ gvec + 0.3).max() / lij_.min() + np.abs(want).max())  # (conditioning: the constant 0.3 cancels in differences of O(|f|))
                 if note("gradient_exact_linear", err, 1e-10 * mag):
                     viol("gradient_not_exact_on_linear", {"mesh": nm, "err": err, "mag": mag})
                 Lm, _ = ops.build_laplacian(msh)
